@@ -254,6 +254,10 @@ def broadcast_binary_op(a1: ArrayOrScalar, a2: ArrayOrScalar,
                     and np.issubdtype(type(expr), np.integer)
                     and not np.issubdtype(result_dtype, np.integer)):
                 expr = result_dtype.type(expr)
+        elif (isinstance(expr, prim.NaN) and not isinstance(array, np.generic)
+                and np.issubdtype(result_dtype, np.inexact)):
+            # a Python NaN is as weakly typed as any other Python scalar
+            expr = prim.NaN(result_dtype.type)
 
         return expr
 
